@@ -171,3 +171,9 @@ M('c11_euclid_frac', 'C11,C07', (R, "        dists = lattice.get_all_distances(t
 M('c11_between_first_frame_only', 'C11', (R, "            for t in range(num_time_steps)\n", "            for t in range(num_time_steps - (num_time_steps > 25))\n"))
 M('c11_state_double_count', 'C11', (R, "            k_idx = np.argwhere(t_states == state)\n", "            k_idx = np.argwhere(t_states >= state) if len(states) > 2 else np.argwhere(t_states == state)\n"))
 M('c11_particle_vol_species1', 'C11', (R, "    coords_2 = trajectory.filter(specie_2).coords\n", "    coords_2 = trajectory.filter(specie_2).coords\n    n1 = coords_1.shape[1]\n"), (R, "    particle_vol = num_atoms / lattice.volume\n", "    particle_vol = n1 / lattice.volume\n"))
+# ---- C07 -------------------------------------------------------------------------------------
+V = 'volume.py'
+M('c07_collective_nonperiodic', 'C07,C12', (CO, "                dists = lattice.get_all_distances(a, b)\n", "                dists = np.linalg.norm(lattice.get_cartesian_coords(a[:, None, :] - b[None, :, :]), axis=-1)\n"))
+M('c07_site_order_dependent_states', 'C07', (T, "        atom_sites[index] = siteno\n", "        atom_sites[index] = np.where((siteno == 0) & (index % 7 == 0), NOSITE, siteno)\n"))
+M('c07_volume_axis_aligned', 'C07,C08', (V, "    ny = int(1 + lattice.lengths[1] // resolution)\n", "    ny = int(1 + abs(lattice.matrix[1, 1]) // resolution) if abs(lattice.matrix[1, 1]) > resolution else int(1 + lattice.lengths[1] // resolution)\n"))
+M('c07_rdf_between_cart', 'C07,C11', (R, "            lattice.get_all_distances(coords_1[t, :, :], coords_2[t, :, :])\n", "            np.linalg.norm(lattice.get_cartesian_coords(coords_1[t, :, None, :] - coords_2[t, None, :, :]), axis=-1)\n"))
